@@ -117,7 +117,7 @@ pub(crate) fn expand_by_wrapper(
         match parser::reparse_arguments(meta_info, &chars, 0) {
             Ok(values_option) => match values_option {
                 Some(values) => ExpandedValue::Multi(values),
-                None => ExpandedValue::None,
+                None => ExpandedValue::Multi(vec![]),
             },
             Err(_) => ExpandedValue::None,
         }
